@@ -1,6 +1,7 @@
 """C08 - struct property (see DESIGN.md §5 C08); cases shared with the other struct properties."""
 from common import coq_options
 import structcases
+import obs
 
 ID = "C08"
 REQUIRES = ["Agree", "StructSpec", "Truth"]
@@ -24,12 +25,44 @@ def cases(rng, tier):
     return structcases.cases(rng, tier)
 
 
+ELIGIBLE = lambda c: not (c["opts"].get("mv") == "Nalgebra" and c["opts"].get("encase"))
+
+
+def run_cases(plain, cases_, workdir, tag):
+    # behavioural level: 40 modules are compiled (all derive crates present) and the struct items counted
+    return obs.attach(plain, cases_, workdir, tag, ELIGIBLE, 40 if "search" not in tag else 0)
+
+
+def _obs(c, r):
+    if "obs" not in r or r.get("result") != "ok":
+        return "true"
+    if obs.not_compiled(r):
+        c["note"] = "module rejected at compile time: " + str((r.get("obs") or {}).get("why"))[:300]
+        return "true"       # compile failures are C01's / C05's subject
+    if not obs.usable(r):
+        c["note"] = "no observations: %s" % str(r.get("obs"))[:300]
+        return "false"
+    ok, why = obs.check_c08(c["truth"], r)
+    c["note"] = why
+    return "true" if ok else "false"
+
+
+def verdict_expr_noout(c, r, ir):
+    if "obs" not in r:
+        return None
+    return "[true; false; %s]" % _obs(c, r)
+
+
 def verdict_expr(c, r, ir, real):
     t = structcases.truth_term(c["truth"], c["opts"])
+    return _verdict(c, r, ir, real, t).replace("OBS", _obs(c, r))
+
+
+def _verdict(c, r, ir, real, t):
     return ('[wf %s; agree_res agree_C08 (gen %s ""%%string None %s) %s; '
-            'match %s with Ok o => C08_ok %s o && truth_structs_ok o %s | Panic _ => %s | _ => false end]'
+            'match %s with Ok o => C08_ok %s o && truth_structs_ok o %s | Panic _ => %s | _ => false end && OBS]'
             % (ir, ir, coq_options(c["opts"]), real, real, ir, t,
-               "true" if c["needs_encase"] else "false"))
+               "true" if structcases.panic_expected(c) else "false"))
 
 
 def nontrivial(c, r):
